@@ -16,6 +16,19 @@ def check(rep, tier, seed, COMP, Name):
         "global atomic sequence numbers: ret(A) < call(B) implies A finished before B started",
     ]
     binary = harness.build("vh-queue")
+    # unbounded part (runs beside everything else): Apalache inductive step + TLAPS proof of the tracker arithmetic
+    # (all hard limits / quotas / credits) and of the FIFO kernel (added = removed o items, Len = tracker.len <= hard)
+    import threading
+    from props import proofs
+    pt = threading.Thread(target=proofs.run_proofs, args=(rep, ["tracker", "queue"] if COMP == "queue" else ["tracker"], tier))
+    pt.start()
+    try:
+        _check(rep, tier, seed, COMP, Name, quick, sub, binary)
+    finally:
+        pt.join()
+
+
+def _check(rep, tier, seed, COMP, Name, quick, sub, binary):
     # (a) model -> code, sequential: exact results, Len and contents after every behaviour
     r = tlc.run_tlc(COMP, Name + "Seq", "Seq_edge.cfg", workers=6, timeout=600)
     rep.add_tlc(Name + "Seq/Seq_edge.cfg", r, "edge cover of the sequential state graph, all option sets")
